@@ -169,7 +169,7 @@ PLAIN_KINDS = ["pkh", "wpkh", "sh_wpkh", "multi_bare", "multi_sh", "multi_wsh", 
 
 @st.composite
 def roles_case(draw):
-    return {"world": draw(worlds.world_case(max_inputs=3, kinds=PLAIN_KINDS)), "tamper": draw(st.sampled_from(["none", "amount", "script", "drop-utxo", "add-unknown", "foreign-signature", "add-input", "sequence", "derivation"])), "seed": draw(st.integers(0, 10**6)),
+    return {"world": draw(worlds.world_case(max_inputs=3, kinds=PLAIN_KINDS)), "tamper": draw(st.sampled_from(["none", "amount", "script", "drop-utxo", "add-unknown", "foreign-signature", "add-input", "sequence", "derivation", "sighash-byte", "sighash-byte"])), "seed": draw(st.integers(0, 10**6)),
             "ops": draw(st.lists(st.sampled_from(["to_v2", "to_v0", "reparse", "sign0", "sign1", "sign2", "combine-self", "finalize"]), max_size=6))}
 
 
@@ -265,6 +265,15 @@ def check_roles(case):
     added = returned.serialize() != unsigned.serialize()
     if added and fps != {signers[j0].master_fingerprint}:
         raise Violation("signer_answer:new_signers-wrong", f"{[f.hex() for f in fps]} vs {signers[j0].master_fingerprint.hex()}")
+    if t == "sighash-byte":
+        # the answer of every signer in turn (one device holding all the keys would answer so): an input of a multisig then gains several signatures at once,
+        # and each of them is held to the hash of its own sighash byte
+        for s_ in signers:
+            returned = s_.sign_psbt(returned)
+        try:
+            assert_signatures_only(unsigned, returned)
+        except LIBEXC as e:
+            raise Violation("signer_answer:honest-answer-of-all-signers-refused", str(e)[:200]) from e
     if t != "none":
         bad = Psbt.parse(returned.serialize())
         rng = random.Random(case["seed"])
@@ -294,6 +303,17 @@ def check_roles(case):
                 sig = bytearray(i.partial_sigs[key])
                 sig[10] ^= 1
                 i.partial_sigs[key] = bytes(sig)
+        elif t == "sighash-byte":
+            # the sighash byte of one new signature -- the last one of the input with the most of them -- replaced by another defined type: the DER stays
+            # valid, the signature is no longer one of the hash it now claims
+            i = max(bad.inputs, key=lambda x: len(x.partial_sigs))
+            if not i.partial_sigs:
+                changed = False
+            else:
+                key = sorted(i.partial_sigs)[-1] if rng.random() < 0.7 else rng.choice(sorted(i.partial_sigs))
+                sig = i.partial_sigs[key]
+                i.partial_sigs[key] = sig[:-1] + bytes([0x02 if sig[-1] != 0x02 else 0x01])
+                tags.append(f"sigs-on-input={min(len(i.partial_sigs), 3)}")
         elif t == "add-input":
             bad.inputs.append(copy.deepcopy(bad.inputs[0]))
         elif t == "sequence":
